@@ -19,7 +19,7 @@ import (
 )
 
 func usage() {
-	fmt.Fprintln(os.Stderr, "usage: gbverif check <Cxx> [--tier quick|thorough] [--only rulePrefix] | list")
+	fmt.Fprintln(os.Stderr, "usage: gbverif check <Cxx> [--tier quick|thorough] [--only rulePrefix] | replay <file> | list")
 	os.Exit(2)
 }
 
@@ -58,6 +58,53 @@ func main() {
 			*tier = t
 		}
 		os.Exit(run(id, *tier, *only))
+	case "replay":
+		// replay <file>: re-evaluates, on /repo's current tree, the rule a recorded violation came from (the replay
+		// file names the property, the rule and the obligation); exit 1 and a VIOLATION line if it is still violated.
+		// Evidence of this partial run goes to a scratch directory, not over the property's evidence file.
+		if len(os.Args) < 3 {
+			usage()
+		}
+		b, err := os.ReadFile(os.Args[2])
+		if err != nil {
+			fmt.Fprintln(os.Stderr, err)
+			os.Exit(2)
+		}
+		var rf struct {
+			Property   string `json:"property"`
+			Key        string `json:"key"`
+			Obligation struct {
+				Rule string `json:"rule"`
+			} `json:"obligation"`
+		}
+		if json.Unmarshal(b, &rf) != nil || rf.Property == "" {
+			fmt.Fprintln(os.Stderr, "not a replay file")
+			os.Exit(2)
+		}
+		rule := rf.Obligation.Rule
+		if rule == "" {
+			if i := strings.Index(rf.Key, "|"); i > 0 {
+				rule = rf.Key[:i]
+			}
+		}
+		tmp, err := os.MkdirTemp("", "gbverif-replay-")
+		if err != nil {
+			fmt.Fprintln(os.Stderr, err)
+			os.Exit(2)
+		}
+		vd := os.Getenv("VERIF_DIR")
+		if vd == "" {
+			vd = "/verif"
+		}
+		if kf, err := os.ReadFile(filepath.Join(vd, "known_findings.json")); err == nil {
+			os.WriteFile(filepath.Join(tmp, "known_findings.json"), kf, 0o644)
+		}
+		os.Setenv("VERIF_DIR", tmp)
+		code := run(rf.Property, "quick", rule)
+		if code == 0 {
+			os.RemoveAll(tmp) // on a violation the new replay file named in the VIOLATION line is kept
+		}
+		os.Exit(code)
 	case "checkall":
 		// every property in one process over one loaded program (development aid: the registered commands run
 		// one property per process)
